@@ -72,7 +72,8 @@ Definition match_out (m : Out) (o : oval) : bool :=
 Inductive ocache :=
 | ONoC
 | OCubic (key : SD) (t : Tol) (v : Qc)   (* _length_info: bpoints, error, min_depth, length *)
-| OArc (key_current : bool) (v : Qc).    (* segment_length_hash == hash(self), segment_length *)
+| OArc (key_current : bool) (v : Qc)     (* segment_length_hash == hash(self), segment_length *)
+| OCacheOther.                           (* a cache whose structure the model does not know *)
 Definition match_cache (g : Seg) (o : ocache) : bool :=
   match scache g, o with
   | None, ONoC => true
